@@ -482,7 +482,8 @@ class Discharger:
             wo = cx.walk(fo, args=[SELF, CONN, P('name'), P('password')], inline=inl, key='c19', prog=self.prog)
             C19.transitions(cx, rule, 'process_oper', wo, field(user(CONN_NICK), 'modes'), CONN_NICK, 'update', self.prog, fo)
             fu = cx.fn('process_mode_user', prog=self.prog)
-            wu = cx.walk(fu, args=[SELF, CONN, STATE, P('target'), P('modes')], inline=inl, key='c19', prog=self.prog)
+            wu = cx.walk(fu, args=cx.callsite_args(cx.fn('process_mode', prog=self.prog), [SELF, CONN, P('target'), P('modes')],
+                                                   'process_mode_user', prog=self.prog), inline=inl, key='c19', prog=self.prog)
             C19.transitions(cx, rule, 'process_mode_user', wu, field(user(P('target')), 'modes'), P('target'), 'update', self.prog, fu)
             self._i5 = {'operators_count': [v for v in rule.violations if 'operators_count' in v.key],
                         'invisible_users_count': [v for v in rule.violations if 'invisible_users_count' in v.key]}
